@@ -2,7 +2,7 @@
 C12 (token slice) — exported state re-imports and preserves what users rely on.
 
 (a) the round-trip statement and the observational equality it is about;
-(b) the decidable classes of the recorded findings (F-gen-9, F-gen-10, F-gen-11) and the `Bool`
+(b) the decidable classes of the recorded findings (F-gen-9, F-gen-10, F-gen-13) and the `Bool`
     monitor evaluated on the implementation's `token export` / `token reimport` observations.
 Core Lean only.
 -/
@@ -46,17 +46,17 @@ def maxBelowInit (s : State) : Bool := s.tokens.any fun e => decide (e.2.maxSupp
 /-- F-gen-10: the base-fee denom is not the symbol of a registered token -/
 def feeDenomUnregistered (s : State) : Bool := !(AMap.contains s.tokens s.params.feeDenom)
 
-/-- F-gen-11: a token whose symbol or min unit `Token.Validate` rejects (a token created by
+/-- F-gen-13: a token whose symbol or min unit `Token.Validate` rejects (a token created by
 `DeployERC20` for an ICS20 denom: min unit `ibc/…`) -/
 def badIdentity (s : State) : Bool := s.tokens.any fun e => !(validSymbol e.2.symbol && validSymbol e.2.minUnit)
 
 /-- the class an invalid export belongs to ("" = none: a new violation) -/
 def exportClass (s : State) : String :=
-  if maxBelowInit s then "F-gen-9" else if badIdentity s then "F-gen-11" else ""
+  if maxBelowInit s then "F-gen-9" else if badIdentity s then "F-gen-13" else ""
 
 /-- the class a panicking import belongs to -/
 def importClass (s : State) : String :=
-  if maxBelowInit s then "F-gen-9" else if badIdentity s then "F-gen-11"
+  if maxBelowInit s then "F-gen-9" else if badIdentity s then "F-gen-13"
   else if feeDenomUnregistered s then "F-gen-10" else ""
 
 /-- `token export`: the exported document must pass the module's own `ValidateGenesis` -/
